@@ -36,7 +36,8 @@ def check(prog: Program, tier: str) -> Result:
     stats = site_obligations(prog, res, "R7.2", need_bare=False)
     _producer(prog, res)
     _unpacker(prog, res)
-    res.floors.update({"R7.1": 14, "R7.2": 8, "R7.3": 4, "R7.4": 4})
+    _module_level_deletes(prog, res)
+    res.floors.update({"R7.1": 14, "R7.2": 8, "R7.3": 4, "R7.4": 4, "R7.6": 1})
     res.analysed.update(stats)
     return res
 
@@ -183,6 +184,77 @@ def _module_level_only(prog: Program, fn: Func) -> bool:
     return True
 
 
+def _root_vars(prog: Program, fn: Func) -> Set[str]:
+    out = set()
+    for name, defs in P.bindings(fn).items():
+        for _, v in defs:
+            if isinstance(v, ast.Call) and (prog.dotted(v.func) or "") in ("core.parse", "ast.parse"):
+                out.add(name)
+    return out
+
+
+def _may_be_root(prog: Program, fn: Func, var: str, at: ast.AST, roots: Set[str]) -> bool:
+    if var in roots:
+        return True
+    loop = P.binding_loop(fn, at, var)
+    if loop is None:
+        return False
+    # the module itself is an element of what the loop iterates: [root], (root, ..), chain([root], ..)
+    for n in ast.walk(loop.iter):
+        if isinstance(n, (ast.List, ast.Tuple, ast.Set)) and any(isinstance(x, ast.Name) and x.id in roots for x in n.elts):
+            return True
+        if isinstance(n, ast.Starred):
+            continue
+    if isinstance(loop.iter, ast.Call) and (prog.dotted(loop.iter.func) or "") in ("itertools.chain",) and any(
+            isinstance(a, ast.Name) and a.id in roots for a in loop.iter.args):
+        return False   # chain(root, ..) iterates the fields of root, not root
+    return False
+
+
+def _module_level_deletes(prog: Program, res: Result) -> None:
+    """R7.6: a rule that has no `preserve` parameter may delete a direct child statement of the module only under a
+    test that rules out definitions (`not has_side_effect(x)` - definitions and name stores are effects, C16 R16.3 -
+    or a kind test)."""
+    from ..pathcond import world_has
+    for fn in prog.funcs.values():
+        if not fn.is_fix or "preserve" in fn.all_params:
+            continue
+        roots = _root_vars(prog, fn)
+        if not roots:
+            continue
+        pa = None
+        for y in [n for n in walk_own(fn.node) if isinstance(n, ast.Yield)]:
+            v = y.value
+            if not (isinstance(v, ast.Tuple) and len(v.elts) >= 2 and isinstance(v.elts[0], ast.Name)
+                    and isinstance(v.elts[1], ast.Constant) and v.elts[1].value is None):
+                continue
+            x = v.elts[0].id
+            loop = P.binding_loop(fn, y, x)
+            if loop is None:
+                continue
+            holder = None
+            for n in ast.walk(loop.iter):
+                if isinstance(n, ast.Attribute) and n.attr in ("body", "orelse", "finalbody") and isinstance(n.value, ast.Name):
+                    holder = n.value.id
+            if holder is None or not _may_be_root(prog, fn, holder, loop, roots):
+                continue
+            kinds = P.subject_kinds(prog, fn, x, at=y)
+            if kinds and not (kinds & {"FunctionDef", "AsyncFunctionDef", "ClassDef", "Assign", "AnnAssign", "AugAssign", "AST"}):
+                res.ok("R7.6", fn.loc(y), fn.fq, short(y, 80), f"'{x}' is selected by a template of kind {sorted(kinds)}: not part of the public surface")
+                continue
+            pa = pa or PathAnalysis(prog, fn, term_hook=P.name_hook)
+            worlds = pa.worlds_at(y)
+            tok = lambda w: w.token(x)
+            ok = bool(worlds) and all(
+                world_has(w, False, lambda t: "has_side_effect(" + x in t.replace(" ", "") or f"has_side_effect({x}," in t or f"has_side_effect({x})" in t)
+                or world_has(w, True, lambda t: t.startswith(f"isinstance({x},") and not any(k in t for k in ("FunctionDef", "ClassDef", "Assign")))
+                for w in worlds)
+            res.decide(ok, "R7.6", fn.loc(y), fn.fq, short(y, 80),
+                       f"'{x}' can be a top-level statement of the module, deleted only under `not has_side_effect({x})` (definitions and name stores are effects)" if ok else
+                       f"'{x}' can be a top-level statement of the module ('{holder}' may be the module itself) and is deleted without any test that rules out definitions; "
+                       "this rule has no `preserve` parameter, so safe mode cannot protect the module's public surface from it")
+
+
 def _unpacker(prog: Program, res: Result) -> None:
     fn = prog.func("parsing", "_unpack_ast_target")
     handled: Set[str] = set()
@@ -221,6 +293,9 @@ VARIANTS = [
     Variant("safe-block-forgets-callers-preserve", "FIRE", "main", "        preserve = set(preserve) | defs | class_funcs | assignments | class_members", "        preserve = defs | class_funcs | assignments | class_members", "R7.5"),
     Variant("unpacker-forgets-starred", "FIRE", "parsing", "    if isinstance(target, ast.Starred):\n        yield from _unpack_ast_target(target.value)\n", "", "R7.4"),
     Variant("worker-safe-constant", "FIRE", "main", "                    (filename, filename_preserve[filename], safe)", "                    (filename, filename_preserve[filename], False)", "R7.1"),
+    Variant("unreachable-code-at-module-level", "FIRE", "fixes",
+            "    for node in parsing.iter_bodies_recursive(root):\n        if not isinstance(node, (ast.If, ast.While)):\n            for unreachable_node in _iter_unreachable_nodes(node.body):",
+            "    for node in itertools.chain([root], parsing.iter_bodies_recursive(root)):\n        if not isinstance(node, (ast.If, ast.While)):\n            for unreachable_node in _iter_unreachable_nodes(node.body):", "R7.6"),
     Variant("safe-positional", "SILENT", "main", "            source = format_code(source, preserve=preserve, safe=args.safe)", "            source = format_code(source, safe=args.safe, preserve=preserve)"),
 ]
 
